@@ -4,7 +4,7 @@ set -u
 P=$1; D=$2
 cd /verif
 git -C /repo apply "$D" || { echo "APPLY-FAILED $D"; exit 2; }
-./check $P --tier quick > build/seeded_$P.out 2>build/seeded_$P.err; rc=$?
+VERIF_EVIDENCE_DIR=/verif/build/seeded_evidence ./check $P --tier quick > build/seeded_$P.out 2>build/seeded_$P.err; rc=$?
 git -C /repo checkout -- . 
 echo "rc=$rc $(grep -c '^VIOLATION' build/seeded_$P.out) violation line(s): $(grep '^VIOLATION' build/seeded_$P.out | head -2)"
 grep -E '^\s+(PROP|CORR|PANIC|NO-LONGER)' build/seeded_$P.out | head -3
